@@ -78,6 +78,13 @@ func invalidations(side ref.Side, ext, frag bool) []bad {
 			out = append(out, bad{fmt.Sprintf("rsv%d-ping", rsv), h, 2})
 		}
 	}
+	{
+		// a 64-bit payload length with its most significant bit set (RFC 6455 5.2: "the most significant bit MUST
+		// be 0"); the bit is set in the encoded header
+		h := base()
+		h.Length = 70000
+		out = append(out, bad{"length-msb", h, 5})
+	}
 	if side != ref.SideNone {
 		h := base()
 		out = append(out, bad{"wrong-mask", h, 5}) // the mask bit is flipped when encoding
@@ -165,13 +172,16 @@ func runOne(c *mon.C, shapes []gen.Shape, side ref.Side, ext bool, b bad, withTa
 	if fh.Masked {
 		c.Rng.Read(fh.Mask[:])
 	}
-	if !wantTooLarge {
+	if !wantTooLarge && !strings.HasPrefix(b.name, "length-msb") {
 		if br := ref.BrokenRules(fh, side, ext, frag); len(br) == 0 {
 			c.Inconclusive("generator produced a frame that breaks no rule: " + b.name)
 			return true
 		}
 	}
 	fbytes := ref.EncodeHeader(fh)
+	if strings.HasPrefix(b.name, "length-msb") {
+		fbytes[2] |= 0x80
+	}
 	hdrEnd := len(pstream) + len(fbytes)
 	body := bytes.Repeat([]byte{0xF7}, b.body)
 	fbytes = append(fbytes, body...)
@@ -289,6 +299,8 @@ func runOne(c *mon.C, shapes []gen.Shape, side ref.Side, ext bool, b bad, withTa
 			case wantTooLarge && obs.Err != wsutil.ErrFrameTooLarge:
 				c.Fail("errkind/"+entry+"/too-large", fmt.Sprintf("frame larger than MaxFrameSize reported as %v, want ErrFrameTooLarge", obs.Err), det())
 				return false
+			case !wantTooLarge && strings.HasPrefix(b.name, "length-msb") && obs.Err == ws.ErrHeaderLengthMSB:
+				// (the header decoder's own error for this one)
 			case !wantTooLarge && !isProtocolErr(obs.Err):
 				c.Fail("errkind/"+entry+"/"+cls, fmt.Sprintf("offending frame reported as %T %v, want a ws.ProtocolError", obs.Err, obs.Err), det())
 				return false
